@@ -9,7 +9,7 @@
 From Coq Require Import ZArith List Bool Lia Permutation.
 From MV Require Import Ast Eval Scalar Machine Model Policy.
 From MV.Proofs Require Import Arith Logic Prim View OpsLocal Guards Grow CapHistory Drops DrainIt Core Refine Clone Append SplitOff Extend CloneSlice RetainSpec RetainAbs History DrainAbs Resize SourceSpecs.
-From MV Require Import EquivDefs Prims EquivTac EquivElem EquivPop.
+From MV Require Import EquivDefs Prims EquivTac EquivElem EquivPop EquivRemove EquivInsert EquivSwapRemove.
 From MV.Gen Require Import AstGen.
 Close Scope string_scope.
 Import ListNotations.
@@ -389,3 +389,60 @@ Theorem C01_the_source_of_pop_takes_the_last :
 Proof. exact pop_source. Qed.
 Print Assumptions C01_the_source_of_push_appends.
 Print Assumptions C01_the_source_of_pop_takes_the_last.
+
+(* END TO END for truncate, remove, swap_remove and insert: the regenerated bodies in terms of the list
+   model (prefix / delete_at / swap_delete / list_insert), with their panics exactly where the list
+   operation is undefined or the capacity computation refuses, and nothing changed then *)
+Theorem C01_the_source_of_truncate_keeps_the_prefix :
+  forall cfg ncap, cfg_ok cfg -> needs_drop cfg = true ->
+  forall s v l n,
+  vabs cfg s v l -> Z.of_nat (List.length l) <= ISIZE_MAX -> 0 <= n < W64 ->
+  let Q := fun s' => vabs cfg s' v (firstn (Z.to_nat n) l) /\
+                     (forall e, In e (skipn (Z.to_nat n) l) -> ledger s' e = Dropped) /\
+                     only_changes s s' (skipn (Z.to_nat n) l) in
+  match runm cfg ncap lib__MiniVec__truncate_ast [VObj v; VInt n] s with
+  | (Norm _, s') | (Panic, s') => Q s'
+  | (Fail FAbort, _) | (Fail (FAllocAbort _ _), _) => True
+  | _ => False
+  end.
+Proof. exact truncate_source. Qed.
+Theorem C01_the_source_of_remove_deletes_at_the_index :
+  forall cfg ncap, cfg_ok cfg -> needs_drop cfg = true ->
+  forall s v l i,
+  vabs cfg s v l -> Z.of_nat (List.length l) <= ISIZE_MAX -> 0 <= i < W64 ->
+  match returning cfg (runm cfg ncap lib__MiniVec__remove_ast [VObj v; VInt i]) s with
+  | (Norm r, s') => exists x, r = VInt x /\ nth_error l (Z.to_nat i) = Some x /\
+                              vabs cfg s' v (delete_at (Z.to_nat i) l) /\ ledger s' x = Out
+  | (Panic, s') => Z.of_nat (List.length l) <= i /\ s' = s
+  | (Fail FAbort, _) | (Fail (FAllocAbort _ _), _) => True
+  | _ => False
+  end.
+Proof. exact remove_source. Qed.
+Theorem C01_the_source_of_swap_remove :
+  forall cfg ncap, cfg_ok cfg -> needs_drop cfg = true ->
+  forall s v l i,
+  vabs cfg s v l -> Z.of_nat (List.length l) <= ISIZE_MAX -> 0 <= i < W64 ->
+  match returning cfg (runm cfg ncap lib__MiniVec__swap_remove_ast [VObj v; VInt i]) s with
+  | (Norm r, s') => exists x, r = VInt x /\ nth_error l (Z.to_nat i) = Some x /\
+                              vabs cfg s' v (swap_delete (Z.to_nat i) l) /\ ledger s' x = Out
+  | (Panic, s') => Z.of_nat (List.length l) <= i /\ s' = s
+  | (Fail FAbort, _) | (Fail (FAllocAbort _ _), _) => True
+  | _ => False
+  end.
+Proof. exact swap_remove_source. Qed.
+Theorem C01_the_source_of_insert :
+  forall cfg ncap, cfg_ok cfg -> policy_ok ncap -> needs_drop cfg = true ->
+  forall s v l i e,
+  vabs cfg s v l -> Z.of_nat (List.length l) <= ISIZE_MAX -> 0 <= i < W64 ->
+  ledger s e = Live -> ~ In e l -> e < next_elem s ->
+  match param_dropped_on_unwind cfg e (runm cfg ncap lib__MiniVec__insert_ast [VObj v; VInt i; VInt e]) s with
+  | (Norm _, s') => i <= Z.of_nat (List.length l) /\ vabs cfg s' v (list_insert (Z.to_nat i) e l) /\ only_changes s s' []
+  | (Panic, s') => vabs cfg s' v l /\ ledger s' e = Dropped /\ only_changes s s' [e]
+  | (Fail FAbort, _) | (Fail (FAllocAbort _ _), _) => True
+  | _ => False
+  end.
+Proof. exact insert_source. Qed.
+Print Assumptions C01_the_source_of_truncate_keeps_the_prefix.
+Print Assumptions C01_the_source_of_remove_deletes_at_the_index.
+Print Assumptions C01_the_source_of_swap_remove.
+Print Assumptions C01_the_source_of_insert.
